@@ -35,7 +35,7 @@ LEVEL_TEXT = ('Every single pre-emption point of the reload (P1) and of the deci
               'probe; double pre-emptions are sampled (thorough: enumerated around the boundaries where the rule store changes). '
               'Schedules at line granularity are finite per scenario, so the single-switch families are complete.')
 LEVEL_NOTE = 'trusted: the scheduler (semaphore hand-over, one runnable thread), the store log wrappers, fresh-enforcer oracle'
-PLAN = {'quick': dict(shards=16, wall=150), 'thorough': dict(shards=16, wall=520)}
+PLAN = {'quick': dict(shards=16, wall=240), 'thorough': dict(shards=16, wall=520)}
 MIN = {'first_load_races': 1000, 'evaluations': 1000, 'preemptions_inside_reload': 500, 'store_reads_logged': 5000}
 ANCHORS = ['oslo_policy.policy:Enforcer.load_rules', 'oslo_policy.policy:Enforcer._load_policy_file',
            'oslo_policy.policy:Enforcer.set_rules', 'oslo_policy.policy:Enforcer.enforce']
